@@ -15,11 +15,13 @@ pub struct W<'a> {
     pub canon: bool,
     pub bad_enum: bool,
     pub bad_value: u64,
+    /// a Level16 / Level32 member carried a value above 255 (the language calls these aliases of u16 / u32)
+    pub wide_level: bool,
 }
 
 impl<'a> W<'a> {
     pub fn new(b: &'a [u8], n: usize) -> Self {
-        Self { b, n, p: 0, ok: true, canon: true, bad_enum: false, bad_value: 0 }
+        Self { b, n, p: 0, ok: true, canon: true, bad_enum: false, bad_value: 0, wide_level: false }
     }
     fn need(&mut self, k: usize) -> bool {
         if !self.ok {
@@ -87,6 +89,11 @@ impl<'a> W<'a> {
             self.ok = false;
             self.bad_enum = true;
             self.bad_value = v;
+        }
+    }
+    pub fn level(&mut self, v: u64) {
+        if self.ok && v > 255 {
+            self.wide_level = true;
         }
     }
     /// Bool / Bool32: every non-zero value means true; canonical encodings use 0 or 1
